@@ -628,3 +628,183 @@ Example System_nonvacuous_history :
    (1, 1%nat, (1, 200, [(B"etag", B"x"); (auth_header, marker_value)]))].
 Proof. vm_compute. repeat split. Qed.
 End System_examples.
+
+(* ============================================================================================ *)
+(* IV. A connection is a SEQUENCE of requests with head fields, body framing and trailer fields   *)
+(* ============================================================================================ *)
+(* Model/SystemSeq.v: [serve_conn_gen authz mac C rs] serves the requests [rs] of one connection whose
+   state [C] (the attribution: context from the kernel's record, client address, command line) was fixed
+   when it was accepted.  Each [seq_request] carries its OWN environment [rq_env] (rules and actors'
+   answers, clock, key slot, upstream usable, host answer -- whatever is in force when it is handled),
+   its head fields / body frames / declared length ([rq_sys]) and its trailer fields ([rq_trailers]).
+   [so_upstream o] lists (destination, [upstream_message] = head + body + trailer section) the host
+   receives for a request; [so_result o] is System.v's result.  All statements: every sequence, every
+   position [i], every authorization function and [mac]. *)
+From GPA.Model Require Import SystemSeq.
+From GPA.Proofs Require Import SystemSeqProofs.
+
+(* the outcome at position i depends on the connection state and on request i alone -- not on the
+   requests before it nor on their outcomes (relayed, refused, over the limit, host down) *)
+Theorem SystemSeq_position_independent : forall authz mac C rs rs' i j,
+  nth_error rs i = nth_error rs' j ->
+  nth_error (serve_conn_gen authz mac C rs) i = nth_error (serve_conn_gen authz mac C rs') j.
+Proof. exact position_independent. Qed.
+Print Assumptions SystemSeq_position_independent.
+
+(* (a) COMPLETE MEDIATION PER REQUEST.  Whatever the host receives for request i implies: the
+   connection is attributed this destination and these claims, and request i ITSELF passed every check
+   under what was in force AT request i (counter, no "..", not the local endpoint, rules of that moment
+   read and not forbidding), its gate was open, its body within the limit of its own class and sent
+   whole, the upstream connection usable at that moment; and it is the only message for request i *)
+Theorem SystemSeq_mediation_per_request : forall authz mac C rs i o ip port u,
+  nth_error (serve_conn_gen authz mac C rs) i = Some o -> In (ip, port, u) (so_upstream o) ->
+  exists r c rl,
+    nth_error rs i = Some r /\
+    let sr := server_request (sq_req (rq_sys r)) in
+    cx_dest (ci_ctx C) = Some (ip, port) /\ cx_claims (ci_ctx C) = Some c /\
+    e_counter_ok (se_env (rq_env r)) = true /\ has_traversal sr = false /\ is_provision sr = false /\
+    e_claims_json_ok (se_env (rq_env r)) c = true /\
+    rules_for (se_env (rq_env r)) (ipv4_text ip) port = ROk rl /\
+    authz (ipv4_text ip) port c (url_of sr) rl <> AForbidden /\
+    gate_open (rq_sys r) = true /\
+    total (q_frames (sq_req (rq_sys r))) <= limit_of (q_method (sq_req (rq_sys r))) (q_uri (sq_req (rq_sys r))) /\
+    r_body (u_request u) = concat (q_frames (sq_req (rq_sys r))) /\
+    se_up (rq_env r) = true /\ so_upstream o = [(ip, port, u)].
+Proof. exact seq_mediation. Qed.
+Print Assumptions SystemSeq_mediation_per_request.
+
+(* ... contrapositive, independent of history: a request the rules in force at ITS turn forbid is not
+   relayed, whatever was relayed or refused before it on the same connection *)
+Theorem SystemSeq_forbidden_not_relayed : forall authz mac C rs i r ip port c,
+  nth_error rs i = Some r ->
+  cx_dest (ci_ctx C) = Some (ip, port) -> cx_claims (ci_ctx C) = Some c ->
+  (forall rl, rules_for (se_env (rq_env r)) (ipv4_text ip) port = ROk rl ->
+              authz (ipv4_text ip) port c (url_of (server_request (sq_req (rq_sys r)))) rl = AForbidden) ->
+  exists o, nth_error (serve_conn_gen authz mac C rs) i = Some o /\
+            so_upstream o = [] /\ sy_upstream (so_result o) = [].
+Proof. exact seq_forbidden_not_relayed. Qed.
+Print Assumptions SystemSeq_forbidden_not_relayed.
+
+(* (b) PROXY-OWNED NAMES EXACTLY ONCE OVER HEAD AND TRAILER SECTIONS.  In everything the host receives
+   for request i -- head fields and trailer fields, names read case-insensitively -- claims occurs
+   exactly once with the connection's elevation bit, date exactly once with the clock of request i,
+   nothing else carries either name, the trailer section is empty, and on a signed request the
+   authorization name occurs exactly once, naming the key latched at request i *)
+Theorem SystemSeq_owned_once_head_and_trailers : forall authz mac C rs i o ip port u,
+  nth_error (serve_conn_gen authz mac C rs) i = Some o -> In (ip, port, u) (so_upstream o) ->
+  exists r c,
+    nth_error rs i = Some r /\ cx_claims (ci_ctx C) = Some c /\
+    hm_get_all claims_header (all_fields u) = [claims_text (k_elevated c)] /\
+    hm_get_all date_header (all_fields u) = [se_now (rq_env r)] /\
+    (forall n v, In (n, v) (all_fields u) ->
+       (lower n = claims_header -> v = claims_text (k_elevated c)) /\
+       (lower n = date_header -> v = se_now (rq_env r))) /\
+    u_trailers u = [] /\
+    (is_signed (key_value (se_key (rq_env r))) (key_guid (se_key (rq_env r))) (collected (sq_req (rq_sys r))) = true ->
+     exists k sig, se_key (rq_env r) = Some k /\
+       hm_get_all auth_header (all_fields u) = [auth_value (SignRace.guid k) sig] /\
+       forall n v, In (n, v) (all_fields u) -> lower n = auth_header -> v = auth_value (SignRace.guid k) sig).
+Proof. exact seq_owned_once. Qed.
+Print Assumptions SystemSeq_owned_once_head_and_trailers.
+
+(* ... and that identity is the KERNEL's: for a connection accepted from source port p, every message
+   of every request of the sequence goes to the recorded destination and carries the elevation bit of
+   the record found under p at accept time *)
+Theorem SystemSeq_owned_kernel_identity : forall mac os fr m p cip cmd rs i o ip port u,
+  nth_error (serve_accepted mac os fr m p cip cmd rs) i = Some o -> In (ip, port, u) (so_upstream o) ->
+  exists rec,
+    alookup N.eqb p m = Some rec /\ ip = ae_ip rec /\ port = ae_port rec /\
+    hm_get_all claims_header (all_fields u) = [claims_text (run_as_elevated (audit_view rec))] /\
+    u_trailers u = [].
+Proof. exact seq_owned_kernel_identity. Qed.
+Print Assumptions SystemSeq_owned_kernel_identity.
+
+(* (c) OVER-LIMIT REQUESTS ARE NEVER RELAYED, whatever their position: over the limit of its OWN class
+   (chosen per request), declared or chunked, first or after any number of relayed/refused requests *)
+Theorem SystemSeq_over_limit_never_relayed : forall authz mac C rs i r,
+  nth_error rs i = Some r ->
+  limit_of (q_method (sq_req (rq_sys r))) (q_uri (sq_req (rq_sys r))) < total (q_frames (sq_req (rq_sys r))) ->
+  exists o, nth_error (serve_conn_gen authz mac C rs) i = Some o /\
+            so_upstream o = [] /\ sy_upstream (so_result o) = [].
+Proof. exact seq_over_limit_never_relayed. Qed.
+Print Assumptions SystemSeq_over_limit_never_relayed.
+
+(* (d) VIEWS.  Projecting the sequence model to a single request gives back System.v: a one-request
+   connection is [system_step_gen] (so parts I-III above are the n = 1 case), the results of any
+   sequence are System.v's keep-alive connection [system_conn], and the messages' heads are System.v's
+   written requests *)
+Theorem SystemSeq_projects_to_system : forall authz mac C r rs,
+  (serve_conn_gen authz mac C [r] = [serve_request_gen authz mac C r] /\
+   map so_result (serve_conn_gen authz mac C [r]) = [system_step_gen authz mac (rq_env r) C (rq_sys r)]) /\
+  map (fun x => (fst (fst x), snd (fst x), u_request (snd x))) (so_upstream (serve_request_gen authz mac C r))
+    = sy_upstream (system_step_gen authz mac (rq_env r) C (rq_sys r)) /\
+  map so_result (serve_conn mac C rs) = system_conn mac C (map step_of rs) /\
+  serve_conn_gen authz mac C (rs ++ [r]) = serve_conn_gen authz mac C rs ++ [serve_request_gen authz mac C r].
+Proof.
+  intros authz mac C r rs. split; [exact (singleton_is_system_step authz mac C r)|].
+  split; [exact (upstream_heads authz mac C r)|]. split; [exact (results_are_system_conn mac C rs)|].
+  exact (conn_app authz mac C rs [r]).
+Qed.
+Print Assumptions SystemSeq_projects_to_system.
+
+(* the grown per-property models are views too: LimitSeq.v's connection (C15) -- client-answer kind and
+   written requests at every position, under the key latched then; Trailers.v's wire request (C05) --
+   every message is Trailers.forward_wire of the request as it is on the wire *)
+Theorem SystemSeq_limit_seq_view : forall authz mac C rs k,
+  (forall r, limit_view (so_result (serve_request_gen authz mac C r)) =
+             serve_one mac (key_value (se_key (rq_env r))) (key_guid (se_key (rq_env r))) (conn_request_of authz C r)) /\
+  (Forall (fun r => se_key (rq_env r) = k) rs ->
+   map (fun o => limit_view (so_result o)) (serve_conn_gen authz mac C rs) =
+   serve_connection mac (key_value k) (key_guid k) (map (conn_request_of authz C) rs)).
+Proof.
+  intros authz mac C rs k. split; [exact (limit_seq_view_one authz mac C)|exact (limit_seq_view authz mac C rs k)].
+Qed.
+Print Assumptions SystemSeq_limit_seq_view.
+
+Theorem SystemSeq_trailers_view : forall authz mac C r ip port u,
+  In (ip, port, u) (so_upstream (serve_request_gen authz mac C r)) ->
+  exists up,
+    fst (handled authz (rq_env r) C (rq_sys r)) = Relay up /\ ip = up_ip up /\ port = up_port up /\
+    In (ip, port, u_request u) (sy_upstream (system_step_gen authz mac (rq_env r) C (rq_sys r))) /\
+    forward_wire mac (audit_of_upstream up) (se_now (rq_env r)) (key_value (se_key (rq_env r)))
+                 (key_guid (se_key (rq_env r))) (wire_request_of r) = Some u.
+Proof. exact trailers_view. Qed.
+Print Assumptions SystemSeq_trailers_view.
+
+(* non-vacuity: one attributed keep-alive connection (nobody -> IMDS) of five requests: relayed and
+   signed with spoofed claims in head AND trailer section; refused under a deny policy installed in
+   between (403, nothing to the host); relayed again under the rotated key once the policy is back;
+   an over-limit declared length (413); host down for the last one (502).  Positions do not interact. *)
+Module SystemSeq_examples.
+  Import Coq.Strings.String.
+  Import System_examples.
+  Definition key2 := Some (SignRace.Key (B"guid-2") (B"abcd")).
+  Definition chunked_post : sys_request :=
+    req (B"POST") (B"/metadata/instance") None (spoof ++ [(B"Trailer", B"x-ms-azure-host-claims")])%list
+        [B"ab"; B"c"] None.
+  Definition tr_spoof : list (bytes * bytes) :=
+    [(B"X-MS-AZURE-HOST-CLAIMS", claims_text true); (B"x-ms-azure-host-date", B"tomorrow")].
+  Definition big : sys_request := req (B"POST") (B"/metadata/instance") None spoof [] (Some 102401).
+  Definition rs5 : list seq_request :=
+    [ {| rq_env := env_ (ROk None) key1 true host_ok; rq_sys := chunked_post; rq_trailers := tr_spoof |};
+      {| rq_env := env_ (rules Enforce) key1 true host_ok; rq_sys := get_md; rq_trailers := [] |};
+      {| rq_env := env_ (ROk None) key2 true host_ok; rq_sys := chunked_post; rq_trailers := tr_spoof |};
+      {| rq_env := env_ (ROk None) key2 true host_ok; rq_sys := big; rq_trailers := [] |};
+      {| rq_env := env_ (ROk None) key2 false host_ok; rq_sys := get_md; rq_trailers := [] |} ].
+
+Example SystemSeq_nonvacuous :
+  map (fun o => (snd (fst (fst (client_code (sy_client (so_result o))))),
+                 map (fun x => (hm_get_all claims_header (all_fields (snd x)),
+                                hm_get_all auth_header (all_fields (snd x)),
+                                r_body (u_request (snd x)), u_trailers (snd x))) (so_upstream o),
+                 map effect_code (sy_effects (so_result o))))
+      (serve_accepted zero_mac os false m 40003 (B"127.0.0.1") (B"curl x") rs5) =
+  [ (200, [([claims_text false], [auth_value (B"guid-1") []], B"abc", [])], [(0, 0); (2, 200)]);
+    (403, [], [(1, 403); (2, 403)]);
+    (200, [([claims_text false], [auth_value (B"guid-2") []], B"abc", [])], [(0, 0); (2, 200)]);
+    (413, [], []);
+    (502, [], [(2, 502)]) ] /\
+  map fst (seq_case os false m 40003 (B"127.0.0.1") (B"curl x") rs5) =
+  map (fun r => system_case os false m 40003 (B"127.0.0.1") (B"curl x") (rq_env r) (rq_sys r)) rs5.
+Proof. vm_compute. split; reflexivity. Qed.
+End SystemSeq_examples.
